@@ -3,6 +3,7 @@ package main
 // Contract vocabulary (ghost builtins), call-by-contract, and per-function verification.
 
 import (
+	"go/constant"
 	"fmt"
 	"math/big"
 	"os"
@@ -356,6 +357,17 @@ func (c *VC) ghostBuiltin(st *State, name string, call *ast.CallExpr) []*Term {
 		off, ln := mkField(sv, "sl_off"), mkField(sv, "sl_len")
 		rng := mkAnd(c.cmp(token.LEQ, off, j, it), c.cmp(token.LSS, j, c.binop(token.ADD, off, ln, it), it))
 		return []*Term{mkForall([]*Term{j}, mkImplies(rng, mkEq(mkSelect(rowNow, j), mkSelect(rowOld, j))), mkSelect(rowNow, j))}
+	case "arg":
+		// arg[T](i): the i-th argument of the call a callsite assertion is attached to
+		if c.siteCall != nil {
+			if tv, ok := c.cur().view.typeOf(call.Args[0]); ok && tv.Value != nil {
+				if i, ok2 := constant.Int64Val(tv.Value); ok2 && int(i) < len(c.siteCall.Args) {
+					return []*Term{c.eval(c.siteState, c.siteCall.Args[i])}
+				}
+			}
+		}
+		c.unsupportedf(call.Pos(), "arg() outside a callsite assertion")
+		return []*Term{c.fresh("arg", c.sortOf(c.typeOf(call)))}
 	case "identical":
 		// the two values are the same value of the model (for strings: same snapshot, which
 		// implies equal content; used where an uninterpreted spec function must be congruent)
